@@ -2796,10 +2796,12 @@ class PyCdlib:
             self._outfp_write_with_check(outfp,
                                          self.isohybrid_mbr.record(self.pvd.space_size * self.logical_block_size))
 
-        # First write out the PVDs.
+        # First write out the PVDs.  All of them get the same volume
+        # modification date, since duplicate PVDs have to agree completely.
+        now = time.time()
         for pvd in self.pvds:
             outfp.seek(pvd.extent_location() * self.logical_block_size)
-            rec = pvd.record()
+            rec = pvd.record(now)
             self._outfp_write_with_check(outfp, rec)
             progress.call(len(rec))
 
